@@ -276,6 +276,12 @@ static size_t run_line(size_t pc, int in_child, int *stop) {
     } else if (!strcmp(c, "sinkfile")) { unsigned char *p = unhex(tok[2], &n); add_sink(tok[1], S_FILE, (char *) p, -1); free(p);
     } else if (!strcmp(c, "sinksock")) { unsigned char *p = unhex(tok[2], &n); add_sink(tok[1], S_SOCK, (char *) p, bind_dgram((char *) p)); free(p);
     } else if (!strcmp(c, "sinkfull")) { unsigned char *p = unhex(tok[2], &n); add_sink(tok[1], S_FULL, (char *) p, bind_dgram((char *) p)); free(p);
+    } else if (!strcmp(c, "sinkstall")) {                            /* a stream listener that never accepts, its backlog already full: connect() on a blocking socket would hang */
+        unsigned char *p = unhex(tok[1], &n); struct sockaddr_un u; memset(&u, 0, sizeof u); u.sun_family = AF_UNIX; snprintf(u.sun_path, sizeof u.sun_path, "%s", (char *) p);
+        unlink((char *) p); int ls = socket(AF_UNIX, SOCK_STREAM | SOCK_CLOEXEC, 0); int filled = 0;
+        if (ls < 0 || bind(ls, (struct sockaddr *) &u, sizeof u) || listen(ls, 0)) opf("{\"ev\":\"error\",\"what\":\"sinkstall: %s\"}\n", strerror(errno));
+        else for (int i = 0; i < 16; i++) { int cs = socket(AF_UNIX, SOCK_STREAM | SOCK_CLOEXEC | SOCK_NONBLOCK, 0); if (connect(cs, (struct sockaddr *) &u, sizeof u)) { close(cs); break; } filled++; }
+        chmod((char *) p, 0666); opf("{\"ev\":\"stalled\",\"pending\":%d}\n", filled); free(p);
     } else if (!strcmp(c, "sinkdevlog")) { unsigned char *p = unhex(tok[2], &n); add_sink(tok[1], S_SOCK, (char *) p, bind_dgram((char *) p)); setenv("REC_DEVLOG", (char *) p, 1); free(p);
     } else if (!strcmp(c, "sinkstd")) {
         int po[2], pe[2]; if (pipe2(po, O_NONBLOCK) || pipe2(pe, O_NONBLOCK)) {}
